@@ -139,6 +139,16 @@ def prepare_units_reg(ctx, specs, bins, driver_files=None, jobs=8):
             u.gen_failed = True
             u.error = "tl2gen: " + g.gen_log[-800:]
             return u
+        # --split-internal: every user-facing namespace package (gen/tl, gen/tl<ns>) carries a metamini.go that registers its
+        # items too.  Link them all next to meta/factory (real programs do), before or after meta's init depending on the unit
+        ns_pkgs = sorted(p.parent.name for p in (g.dir / "gen").glob("*/metamini.go"))
+        u.ns_pkgs = ns_pkgs
+        if ns_pkgs:
+            first = sum(map(ord, u.name)) % 2 == 0
+            u.ns_init = "namespace packages before meta" if first else "meta before namespace packages"
+            g.extra[("a_regns.go" if first else "zz_regns.go")] = (
+                "package main\n\n// generated by lib/reg_lib.py: link the namespace packages (their metamini.go registers items as well)\nimport (\n"
+                + "".join(f'\t_ "verifh/gen/{p}"\n' for p in ns_pkgs) + ")\n")
         if not g.build():
             u.error = "go build: " + g.gen_log[-1500:]
             return u
